@@ -266,6 +266,21 @@ func runC05(r *Run) {
 					}
 					dst.Elem().Field(1).SetInt(0x1122334455667788)
 					dst.Elem().Field(3).SetInt(0x5566)
+					// padding included: every byte of the struct outside the field F is compared afterwards
+					whole := unsafe.Slice((*byte)(dst.UnsafePointer()), st.Size())
+					fOff, fEnd := st.Field(2).Offset, st.Field(2).Offset+pos.t.Size()
+					for i := uintptr(0); i < st.Size(); i++ {
+						inField := false
+						for k := 0; k < st.NumField(); k++ {
+							if i >= st.Field(k).Offset && i < st.Field(k).Offset+st.Field(k).Type.Size() {
+								inField = true
+							}
+						}
+						if !inField {
+							whole[i] = canary[i%4] // padding
+						}
+					}
+					before := append([]byte{}, whole...)
 					res := func() (cls string) {
 						defer func() {
 							if p := recover(); p != nil {
@@ -300,6 +315,11 @@ func runC05(r *Run) {
 					}
 					if dst.Elem().Field(1).Int() != 0x1122334455667788 || dst.Elem().Field(3).Int() != 0x5566 {
 						intact = false
+					}
+					for i := uintptr(0); i < st.Size(); i++ {
+						if (i < fOff || i >= fEnd) && whole[i] != before[i] {
+							intact = false // a byte outside the field (a sibling or padding) changed
+						}
 					}
 					switch {
 					case res == "panic":
